@@ -1,4 +1,5 @@
 \* heads (v10), assumption NoLag dropped: EXPECTED VIOLATION of HeadsViewOK / NoSilentDeath
+\* measured (8 TLC workers shared over 3 runs): 244 distinct / 392 generated states, depth 7, 3.4s - ends with the expected violation of NoSilentDeath
 CONSTANTS NSubs = 1 NConn = 1 InitLen = 2 MaxLen = 4 MaxTag = 5 MaxReverts = 2 MaxL1 = 0 MaxPc = 0 MaxTx = 1 MaxGw = 0 MaxRecv = 0 MaxTicks = 0 MaxBack = 3 MaxGot = 6
   Ver = 10 Kinds <- KHeads StartAtL1 <- NoL1 NoLag = FALSE QuietSub = TRUE ReorgPrio = TRUE TeeStage = TRUE Window = FALSE FixL1None = FALSE FixL1Order = FALSE BlockIds <- BidsSmall
 INIT Init
